@@ -52,6 +52,14 @@ type Choices struct {
 	Diverged  int
 	Exhausted int
 	replKinds []byte
+	quiet     bool
+}
+
+// SetQuiet makes every later non-randomness decision the default.
+func (c *Choices) SetQuiet() {
+	c.mu.Lock()
+	c.quiet = true
+	c.mu.Unlock()
 }
 
 // NewSearch returns a recording PRNG-driven source.
@@ -68,7 +76,12 @@ func (c *Choices) Draw(kind byte, n uint32, gen func(*Rng) uint32) uint32 {
 	c.mu.Lock()
 	defer c.mu.Unlock()
 	var v uint32
-	if c.isRepl {
+	if c.quiet && kind != 'R' {
+		// defaults only (recorded like any decision, so replay and minimisation see the same vector)
+		if c.isRepl && c.pos >= len(c.replay) {
+			c.Exhausted++
+		}
+	} else if c.isRepl {
 		if c.pos < len(c.replay) {
 			v = c.replay[c.pos]
 			if c.pos < len(c.replKinds) && c.replKinds[c.pos] != kind {
